@@ -1012,6 +1012,16 @@ fn draw_points(r: &mut Rng, n: usize, p: usize) -> Vec<Vec<f64>> {
             _ => (0..p).map(|_| if r.bool(0.4) { 0.0 } else { s * r.normal() }).collect(),
         })
         .collect();
+    // rows far from the origin relative to their mutual distances (a common large offset per coordinate):
+    // kernels must be evaluated from coordinate differences / exact dot products, not from expanded norms
+    if r.bool(0.2) {
+        let off: Vec<f64> = (0..p).map(|_| r.logu(1e2, 1e7) * if r.bool(0.5) { 1.0 } else { -1.0 }).collect();
+        for pt in pts.iter_mut() {
+            for j in 0..p {
+                pt[j] += off[j];
+            }
+        }
+    }
     // exact and near duplicates
     if n > 1 && r.bool(0.3) {
         let a = r.below(n);
